@@ -50,6 +50,15 @@ RULE = (
     "where the filters / tag are registered under alias names and extraction is told through "
     "`keywords` (Babel-style dict with specs, list of names, defaults + aliases), the Babel "
     "catalog of extract_from_templates must contain every per-template entry at its line; "
+    "count / context VALUES at render time drawn from a hostile pool (nil, booleans, lists, "
+    "dicts, objects with and without __int__/__index__, inf, nan, huge ints, numeric and junk "
+    "strings, floats) for tags with / without plural blocks and the t / ngettext / npgettext "
+    "filters, plus an enumerated family rendering every count-bearing form once per pool value; "
+    "extract_from_templates under every `keywords` style Babel allows (None specs for standard "
+    "names, explicit tuple specs, general filter + tag only, registered names only, random "
+    "subsets, aliases only, standard + aliases): the catalog must hold every entry "
+    "extract_from_template reports under the same keywords; extract_liquid driven by Babel's "
+    "own extract_from_file on real (binary) files and extract() on text; "
     "(c) empty / comment-only / blank templates, the compliance corpus and single-edit "
     "mutants of generated templates for 'extraction never fails'. distinct = hash of "
     "(templates, data); non-trivial = the render made >= 1 catalog lookup."
@@ -130,6 +139,8 @@ BASE_DATA: dict[str, Any] = {
     "dm": "d0@data dynamic message",
     "who": "World",
     "nothing": None,
+    "h": 2,     # hostile count value, redrawn per data set
+    "hc": "hostile ctx",  # hostile context value
 }
 # render data binding the names that translate tags / filters accept as ARGUMENTS; a tag
 # or filter that is not given them must not pick them up from the surrounding scope
@@ -147,7 +158,49 @@ COUNT_LITS: list[tuple[str, Any]] = [
     ("0", 0), ("1", 1), ("2", 2), ("5", 5), ("1.5", 1.5), ("'3'", "3"), ("'abc'", "abc"),
     ("true", True), ("nil", None),
 ]
-COUNT_VARS = ["n", "n2"]
+COUNT_VARS = ["n", "n2", "h", "h"]
+
+# values a count / context can take at render time.  {"$drop": kind} stands for an object
+# (materialised just before the render so that witnesses stay plain JSON)
+HOSTILE: list[Any] = [
+    None, True, False, [], [1, 2], {}, {"a": 1}, {"$drop": "int"}, {"$drop": "index"},
+    {"$drop": "noint"}, {"$drop": "str"}, float("inf"), float("-inf"), float("nan"),
+    10**30, -(10**30), 2**63, "3", "0", "abc", "", " 2 ", "1e3", "1.5", "inf", "٣",
+    0, 1, 2, -1, 0.0, 0.5, 2.7, -0.0, 1e300,
+]
+
+
+class _IntDrop:
+    def __int__(self) -> int:
+        return 3
+
+
+class _IndexDrop:
+    def __index__(self) -> int:
+        return 2
+
+
+class _NoIntDrop:
+    pass
+
+
+class _StrDrop:
+    def __str__(self) -> str:
+        return "4"
+
+
+_DROPS = {"int": _IntDrop, "index": _IndexDrop, "noint": _NoIntDrop, "str": _StrDrop}
+
+
+def materialize(v: Any) -> Any:
+    if isinstance(v, dict):
+        if len(v) == 1 and "$drop" in v:
+            return _DROPS[v["$drop"]]()
+        return {k: materialize(x) for k, x in v.items()}
+    if isinstance(v, list):
+        return [materialize(x) for x in v]
+    return v
+
 
 
 def count_class(site: dict[str, Any], data: dict[str, Any]) -> str:
@@ -160,6 +213,12 @@ def count_class(site: dict[str, Any], data: dict[str, Any]) -> str:
     if v is None:
         return "absent"
     if isinstance(v, bool):
+        return "not-a-number"
+    if isinstance(v, dict) and len(v) == 1 and "$drop" in v:
+        return "n" if v["$drop"] in ("int", "index") else "not-a-number"
+    if isinstance(v, (list, dict)):
+        return "not-a-number"
+    if isinstance(v, float) and (v != v or v in (float("inf"), float("-inf"))):
         return "not-a-number"
     if isinstance(v, (int, float)):
         if v == 0:
@@ -511,7 +570,7 @@ class Emit:
             args = [kv("plural", self.lit_full(pl)), self.lit_full(cx), kv("count", "2")]
         elif form == "t-dyn-ctx":
             s["obliged"] = False
-            args = ["cx"]
+            args = [rng.choice(["cx", "hc"])]
             if rng.random() < 0.5:
                 args += [kv("plural", self.lit_full(pl)), kv("count", self.pick_count(s))]
         elif form == "t-dyn-pl":
@@ -533,7 +592,7 @@ class Emit:
             s["ctx"], s["ctx_mode"] = cx, "literal"
             c = self.lit_full(cx)
             if form.endswith("dyn-ctx"):
-                s["obliged"], c = False, "cx"
+                s["obliged"], c = False, rng.choice(["cx", "hc"])
             args = [c]
         elif form.startswith("npgettext"):
             s["ctx"], s["ctx_mode"], s["plural"] = cx, "literal", pl
@@ -765,7 +824,7 @@ class Emit:
             args.append(kv("context", "''"))
         elif ctx_mode == "dynamic":
             s["ctx_mode"] = "dynamic"
-            args.append(kv("context", rng.choice(["cx", "nothing", "who"])))
+            args.append(kv("context", v.get("ctx_var") or rng.choice(["cx", "nothing", "who", "hc", "hc"])))
         elif ctx_mode == "nonstring":
             # a literal whose value is known statically, just not a string
             s["ctx_mode"] = "literal"
@@ -783,7 +842,7 @@ class Emit:
                 s["count"] = {"lit": int(txt)}
                 args.append(kv("count", txt))
             else:
-                args.append(kv("count", self.pick_count(s, avoid=("nil",))))
+                args.append(kv("count", self.pick_count(s)))
         use_var = rng.random() < 0.4
         if use_var and rng.random() < 0.6:
             args.append(kv("who", rng.choice(["who", "'Wanda'", "items[1]"])))
@@ -1270,6 +1329,9 @@ def build_case(rng: random.Random, size: int, rare: bool = True) -> dict[str, An
             d["flag"] = rng.random() < 0.5
             d["cx"] = rng.choice(["dynctx", "", None, 5])
             d["items"] = rng.choice([[1, 2], [1, 2, 3, 5], [2]])
+        if i:
+            d["h"] = rng.choice(HOSTILE)
+            d["hc"] = rng.choice(HOSTILE)
         if i and rng.random() < 0.6:
             # names the translate machinery treats specially, bound by the caller
             d.update(rng.choice(SPECIAL_DATA))
@@ -1298,6 +1360,40 @@ def keywords_for(case: dict[str, Any]) -> Any:
     return {**DEFAULT_KEYWORDS, **spec}
 
 
+STD_SPECS = {"gettext": (1,), "ngettext": (1, 2), "pgettext": ((1, "c"), 2),
+             "npgettext": ((1, "c"), 2, 3)}
+
+
+def keyword_variants(case: dict[str, Any]) -> list[tuple[str, Any]]:
+    """Every style of `keywords` mapping Babel allows for extract_from_templates: None
+    specs (Babel: 'default spec') for standard names, explicit tuple specs, only the general
+    filter + tag, random subsets, aliases only, standard + aliases."""
+    from liquid2.messages import DEFAULT_KEYWORDS
+
+    al = case.get("aliases") or {}
+    reg = {canon: al.get(canon, canon) for canon in ALIAS_SPECS}  # canonical -> registered name
+    rng = random.Random("kw:" + case["templates"][case["root"]])
+    out: list[tuple[str, Any]] = [("default", None) if not al else ("default+alias", {
+        **DEFAULT_KEYWORDS, **{n: ALIAS_SPECS[c] for c, n in reg.items()}})]
+    out.append(("all-none", dict.fromkeys([*reg.values(), *ALL_FUNCS])))
+    out.append(("explicit-specs", {**{n: (STD_SPECS.get(c) if c in STD_SPECS else None)
+                                      for c, n in reg.items()}, **STD_SPECS}))
+    out.append(("general-only", {reg["t"]: None, reg["translate"]: None}))
+    out.append(("registered-names-none", dict.fromkeys(reg.values())))
+    sub: dict[str, Any] = {}
+    for c, n in reg.items():
+        if rng.random() < 0.6:
+            sub[n] = rng.choice([None, STD_SPECS.get(c)])
+    for f in ALL_FUNCS:
+        if rng.random() < 0.5:
+            sub[f] = rng.choice([None, STD_SPECS[f]])
+    if sub:
+        out.append(("subset", sub))
+    if al:
+        out.append(("alias-only", {n: ALIAS_SPECS[c] for c, n in reg.items()}))
+    return out
+
+
 # ---------------------------------------------------------------------------
 # bounded-exhaustive one-site family
 # ---------------------------------------------------------------------------
@@ -1313,12 +1409,17 @@ def enum_cases(rng: random.Random) -> list[dict[str, Any]]:
     out: list[dict[str, Any]] = []
     counts: list[tuple[str, Any]] = [*COUNT_LITS, ("n", "var"), ("n2", "var")]
 
-    def one(fn, alias: dict[str, str] | None = None, kwmode: str | None = None) -> None:  # noqa: ANN001
+    def one(fn, alias: dict[str, str] | None = None, kwmode: str | None = None,  # noqa: ANN001
+            hostile: bool = False) -> None:
         e = Emit(rng, "tA", [], 0.0, 1, True)
         e.alias = alias or {}
         fn(e)
         datas = []
-        for nv in (2, 0, 1):
+        if hostile:
+            # one render per hostile value, as the count and as the context
+            for v in HOSTILE:
+                datas.append({**BASE_DATA, "h": v, "hc": v})
+        for nv in (() if hostile else (2, 0, 1)):
             d = dict(BASE_DATA)
             d["n"] = nv
             d["flag"] = nv != 0
@@ -1328,7 +1429,7 @@ def enum_cases(rng: random.Random) -> list[dict[str, Any]]:
         out.append({"templates": {"tA": e.source()}, "root": "tA", "sites": e.sites,
                     "comments": e.comments, "datas": datas, "modes": ["sync", "sync", "async"],
                     "auto_escape": False, "aliases": alias or {}, "kwmode": kwmode,
-                    "catalog": True})
+                    "catalog": not hostile})
 
     def with_count(e: Emit, txt: str, val: Any):  # noqa: ANN202
         def pick(s: dict[str, Any], avoid: tuple[str, ...] = ()) -> str:
@@ -1481,6 +1582,27 @@ def enum_cases(rng: random.Random) -> list[dict[str, Any]]:
                             e.w("\n")
                             e.stmt_message(host="output", shape="simple")
                     one(fn)
+    # hostile count / context VALUES at render time (one render per value of the pool)
+    for form in ("t-pl", "t-ctx-pl", "t-count-only", "ngettext", "npgettext"):
+        for host in ("output", "liquid-echo", "ternary-alt"):
+            def fn(e: Emit, form=form, host=host) -> None:
+                with_count(e, "h", "var")
+                e.rng = random.Random(f"hostile:{form}:{host}")
+                host_emit(e, host, form)
+            one(fn, hostile=True)
+    for plural in (False, True):
+        for cx in ("none", "literal", "hc"):
+            for cnt in (("h", "var"), None):
+                def fn(e: Emit, plural=plural, cx=cx, cnt=cnt) -> None:
+                    e.rng = random.Random(f"hostile-tag:{plural}:{cx}:{cnt}")
+                    e.w("a\n")
+                    if cx == "hc":
+                        # the context value is hostile as well
+                        e.stmt_translate({"plural": plural, "ctx": "dynamic", "ctx_var": "hc",
+                                          "count": cnt, "ml": False})
+                    else:
+                        e.stmt_translate({"plural": plural, "ctx": cx, "count": cnt, "ml": False})
+                one(fn, hostile=True)
     # the SAME message used twice / three times: every pair of routes, same and other lines
     for fam in ALL_FUNCS:
         for r1 in ("t", "x", "tag"):
@@ -1709,10 +1831,11 @@ class Checker:
             mode = case["modes"][di % len(case["modes"])]
             rec = RecordingTranslations()
             try:
+                live = materialize(data)
                 if mode == "async":
-                    drive(root.render_async(translations=rec, **data))
+                    drive(root.render_async(translations=rec, **live))
                 else:
-                    root.render(translations=rec, **data)
+                    root.render(translations=rec, **live)
             except Exception as e:  # noqa: BLE001
                 ctx.count("renders_raising")
                 ctx.seen("render_errors", type(e).__name__ + ": " + str(e).split("\n")[0][:60])
@@ -1733,15 +1856,12 @@ class Checker:
     # -- extract_from_templates (Babel catalog) ---------------------------------------------
     def check_catalog(self, case: dict[str, Any], tpls: dict[str, Any],
                       extracted: dict[str, list[dict[str, Any]] | None], kw: Any) -> None:
+        """extract_from_templates under every style of `keywords`: the Babel catalog must
+        hold every entry extract_from_template reports under the SAME keywords."""
         ctx = self.ctx
-        variants: list[Any] = [None]
-        if isinstance(kw, dict):
-            variants = [kw]
-        elif isinstance(kw, list):
-            # the catalog builder needs specs: defaults + the alias names
-            variants = [keywords_for({**case, "kwmode": "default+alias"})]
-        for k in variants:
+        for style, k in keyword_variants(case):
             ctx.count("extract_from_templates_calls")
+            ctx.seen("catalog_keyword_styles", style)
             try:
                 cat = self.extract_from_templates(*tpls.values(), keywords=k, strip_comment_tags=True)
             except Exception as e:  # noqa: BLE001
@@ -1754,30 +1874,107 @@ class Checker:
                 self.viol(
                     f"extraction-raises:{type(e).__name__}:{where}",
                     f"extract_from_templates raised {type(e).__name__}: {str(e)[:100]}"
-                    + (f" with keywords={sorted(k)}" if isinstance(k, dict) and where.startswith("keywords") else ""),
+                    + (f" with keywords={k!r}" if isinstance(k, dict) else ""),
                     {"case": _slim(case), "catalog": True},
                 )
                 continue
-            if case.get("kwmode") == "alias-list":
-                continue  # the per-template entries were extracted under another keywords value
-            # every message reported per template must be in the catalog, at its line
-            for name, ents in extracted.items():
+            for name, t in tpls.items():
+                if k == kw or (k is None and kw is None):
+                    ents = extracted.get(name)
+                else:
+                    ents = self.extract(t, case, name, **({"keywords": k} if k is not None else {}))
                 for e in ents or []:
-                    if not e["singular"] or e["func"] not in (*P_FUNCS, *N_FUNCS, "gettext"):
+                    if not e["singular"] or e["func"] not in ALL_FUNCS:
                         continue
                     ctx.count("catalog_entries_checked")
+                    ctx.seen("catalog_style_x_family", f"{style}:{e['func']}")
                     msg = cat.get(e["singular"], context=e["ctx"] if e["func"] in P_FUNCS else None)
                     ok = msg is not None and any(ln == e["lineno"] for _, ln in msg.locations)
                     if ok and e["func"] in N_FUNCS:
                         ok = isinstance(msg.id, (list, tuple)) and list(msg.id) == [e["singular"], e["plural"]]
                     if not ok:
                         self.viol(
-                            f"catalog-missing:{e['func']}",
+                            f"catalog-missing:{e['func']}:keywords-{style}",
                             f"extract_from_template reports {e['func']} {e['singular']!r} at line "
-                            f"{e['lineno']} of {name!r} but the catalog of extract_from_templates has "
+                            f"{e['lineno']} of {name!r} but, with keywords={k!r}, the catalog of "
+                            f"extract_from_templates has "
                             f"{'no such message' if msg is None else 'it as ' + repr(msg.id) + ' at ' + repr(msg.locations)}",
-                            {"case": _slim(case), "catalog": True, "template": name, "entry": e},
+                            {"case": _slim(case), "catalog": True, "template": name, "entry": e,
+                             "keywords_style": style},
                         )
+        if not case.get("aliases"):
+            self.check_babel_entry_point(case, extracted if kw is None else None)
+
+    # -- liquid2.extract_liquid driven by Babel itself -----------------------------------------
+    def check_babel_entry_point(self, case: dict[str, Any],
+                                extracted: dict[str, list[dict[str, Any]] | None] | None) -> None:
+        """`extract_liquid` is the Babel extraction method: Babel opens the file in binary
+        mode (extract_from_file / the CLI) and applies the keyword specs itself."""
+        import io
+        import shutil
+        import tempfile
+
+        from babel.messages.extract import extract as babel_extract
+        from babel.messages.extract import extract_from_file
+        from liquid2 import extract_liquid
+        from liquid2.messages import DEFAULT_KEYWORDS
+
+        ctx = self.ctx
+        tmp = tempfile.mkdtemp(prefix="vf-c15-babel-")
+        try:
+            for name, src in case["templates"].items():
+                path = os.path.join(tmp, name + ".liquid")
+                with open(path, "wb") as f:
+                    f.write(src.encode("utf-8"))
+                ctx.count("babel_extract_from_file_calls")
+                got = None
+                try:
+                    got = list(extract_from_file(extract_liquid, path, keywords=DEFAULT_KEYWORDS,
+                                                 comment_tags=("Translators:",)))
+                except Exception as e:  # noqa: BLE001
+                    self.viol(
+                        f"extraction-raises:{type(e).__name__}:extract_liquid-binary-file",
+                        f"babel.messages.extract.extract_from_file(extract_liquid, <file>) raised "
+                        f"{type(e).__name__}: {str(e)[:90]} (Babel opens files in binary mode)",
+                        {"case": _slim(case), "catalog": True, "template": name, "babel": "file"},
+                    )
+                if got is None:
+                    try:
+                        got = list(babel_extract(extract_liquid, io.StringIO(src), keywords=DEFAULT_KEYWORDS,
+                                                 comment_tags=("Translators:",)))
+                    except Exception as e:  # noqa: BLE001
+                        self.viol(
+                            f"extraction-raises:{type(e).__name__}:extract_liquid-text",
+                            f"babel extract(extract_liquid, StringIO) raised {type(e).__name__}: {str(e)[:90]}",
+                            {"case": _slim(case), "catalog": True, "template": name, "babel": "text"},
+                        )
+                        continue
+                ents = (extracted or {}).get(name)
+                for e in ents or []:
+                    if not e["singular"] or e["func"] not in ALL_FUNCS:
+                        continue
+                    ctx.count("babel_entries_checked")
+                    want = (e["singular"], e["plural"]) if e["func"] in N_FUNCS else e["singular"]
+                    same = [g for g in got if g[0] == e["lineno"] and g[1] == want]
+                    wctx = e["ctx"] if e["func"] in P_FUNCS else None
+                    if not same:
+                        how = f"missing:{e['func']}"
+                    elif not any(g[3] == wctx for g in same):
+                        how = ("context-not-a-string" if any(not isinstance(g[3], (str, type(None)))
+                                                              for g in same) else "context")
+                    elif not any(list(g[2]) == e["comments"] for g in same if g[3] == wctx):
+                        how = "comments"
+                    else:
+                        continue
+                    self.viol(
+                        f"babel-extract:{how}",
+                        f"extract_from_template reports {e['func']} {want!r} ctx={wctx!r} line {e['lineno']} "
+                        f"comments={e['comments']} but Babel's extract() with extract_liquid yields "
+                        f"{same or 'nothing for it'}",
+                        {"case": _slim(case), "catalog": True, "template": name, "entry": e, "babel": "content"},
+                    )
+        finally:
+            shutil.rmtree(tmp, ignore_errors=True)
 
     # -- runtime lookup vs extraction ------------------------------------------------------
     def check_lookup(self, case: dict[str, Any], di: int, data: dict[str, Any], lk: tuple,
@@ -1811,6 +2008,10 @@ class Checker:
             ctx.count("lookups_skipped_extraction_failed")
             return
         kindname = "translate-tag" if site["kind"] == "tag" else f"{site['filter']}-filter"
+        if (site.get("count") or {}).get("var") == "h":
+            ctx.count("hostile_count_lookups_judged")
+            ctx.seen("hostile_count_values", repr(data.get("h")))
+            ctx.seen("hostile_count_kinds", kindname)
         r_ctx = func in P_FUNCS
         r_pl = func in N_FUNCS
         ctx_ignored = site["kind"] == "tag" and site["ctx_mode"] == "dynamic"
@@ -2091,7 +2292,12 @@ def floors(tier: str) -> dict[str, int]:
         "set:matched_forms": 12,
         "set:comment_kinds_attached": 6,
         "set:runtime_funcs": 4,
-        "enum_cases": 2_300,
+        "enum_cases": 2_330,
+        "babel_extract_from_file_calls": 1_000 * k,
+        "set:catalog_keyword_styles": 7,
+        "set:catalog_style_x_family": 26,
+        "set:hostile_count_values": 30,
+        "hostile_count_lookups_judged": 3_000 * k,
         "reuse_use_sites_matched": 8_000 * k,
         "reuse_groups_matched": 3_000 * k,
         "reuse_groups_matched_mixed_routes": 1_000 * k,
